@@ -100,7 +100,7 @@ def snapshot():
     from mistletoe import block_token, span_token, core_tokens, token, span_tokenizer
     return {'block': [c.__name__ for c in block_token._token_types],
             'span': [c.__name__ for c in span_token._token_types],
-            'codeMatches': len(core_tokens._code_matches),
+            'codeMatches': sum(len(l) for l in impl.private_lists(core_tokens)),
             'parseSetext': bool(block_token.Paragraph.parse_setext),
             'rootNone': token._root_node is None,
             'charrefStd': html._charref is span_tokenizer._stdlib_charref,
